@@ -111,6 +111,8 @@ func ForcedEdges(classify func(i *ssa.If) int) func(*ssa.If, bool) bool {
 			return branch
 		case -1:
 			return !branch
+		case 2, -2:
+			return false // neither side is followed: the paths through this test are outside the rule's scope
 		}
 		return true
 	}
